@@ -10,13 +10,13 @@ EXTENDS Components, Json
 
 CONSTANTS MaxDepth    \* bound on TLCGet("level") (100 = none in practice)
 
-View == content
+View == <<content, epoch>>
 Bound == TLCGet("level") <= MaxDepth
 
 \* identity of a state for the replay's path construction; uadp / aadp /
 \* asub are determined by the listings (invariant RegistriesMatch)
 Key == [ureg |-> ureg, areg |-> areg, sreg |-> sreg, hreg |-> hreg,
-        usub |-> usub, ucnt |-> ucnt, urep |-> urep]
+        usub |-> usub, ucnt |-> ucnt, urep |-> urep, epoch |-> epoch]
 
 \* per transition: the call, its events and return value (functions of the
 \* source state and the call)
@@ -50,7 +50,11 @@ Fac01 == {0, 1}
 
 \* ---- counter: one provided, three names, equal / identical / unhashable
 UKeysNames == {<<1, "">>, <<1, "n">>, <<1, "m">>}
+UKeysNamesB == UKeysNames \cup {<<2, "">>}
 CompsEq == {1, 2, 3, 4}
+\* ---- calls made after a re-initialisation
+UKeysTwo == {<<1, "">>, <<1, "n">>}
+CompsReinit == {1, 3, 4}
 \* ---- provided chain, info, replacement, factory, event=False
 UKeysChain == {<<1, "">>, <<1, "n">>, <<2, "">>, <<2, "n">>}
 CompsChain == {1, 2, 5}
